@@ -52,15 +52,41 @@ class BuildError(Exception):
     """the harness could not build the described music (never a verdict about mingus' exporters)"""
 
 
-def build_nc(notes, bpm=None):
+class UserChord(NoteContainer):
+    """a user's own subclass of NoteContainer (the documented way to extend the containers): behaves exactly like its base"""
+
+
+_USER_MIDI = []
+
+
+def user_midi_instrument_class():
+    from mingus.containers.instrument import MidiInstrument
+    if not _USER_MIDI:
+        class UserMidiInstrument(MidiInstrument):
+            """a user's own MIDI instrument class ('subclass your own Instruments')"""
+        _USER_MIDI.append(UserMidiInstrument)
+    return _USER_MIDI[0]
+
+
+def build_nc(notes, bpm=None, sub=False):
     if notes is None:
         return None
     try:
-        nc = NoteContainer([Note(n[0], n[1], channel=n[2], velocity=n[3]) for n in notes])
+        nc = (UserChord if sub else NoteContainer)([Note(n[0], n[1], channel=n[2], velocity=n[3]) for n in notes])
     except Exception as e:  # noqa
         raise BuildError("cannot build container %r: %r" % (notes, e))
     if len(nc) != len(notes):
         raise BuildError("container dropped notes: %r" % (notes,))
+    if [[n.name, n.octave] for n in nc.notes] != [[n[0], n[1]] for n in notes]:
+        # the description lists the notes in another order than the constructor's (sorted) one: put them there by item
+        # assignment, the documented way to replace a note in place
+        try:
+            for i, n in enumerate(notes):
+                nc[i] = Note(n[0], n[1], channel=n[2], velocity=n[3])
+        except Exception as e:  # noqa
+            raise BuildError("cannot reorder container %r: %r" % (notes, e))
+        if [[n.name, n.octave] for n in nc.notes] != [[n[0], n[1]] for n in notes]:
+            raise BuildError("item assignment did not keep the order: %r" % (notes,))
     if bpm is not None:
         nc.bpm = bpm
     return nc
@@ -73,7 +99,7 @@ def build_bar(bd):
     except Exception as e:  # noqa
         raise BuildError("cannot build bar %r %r: %r" % (bd["key"], bd["meter"], e))
     for e in bd["entries"]:
-        nc = build_nc(e["notes"], e.get("bpm"))
+        nc = build_nc(e["notes"], e.get("bpm"), bool(e.get("sub")))
         try:
             ok = b.place_notes(nc, RV.number(e["v"]))
         except Exception as ex:  # noqa
@@ -88,7 +114,7 @@ def build_instrument(spec):
     if spec is None:
         return None
     if spec["kind"] == "midi":
-        i = MidiInstrument()
+        i = user_midi_instrument_class()() if spec.get("sub") else MidiInstrument()
         i.instrument_nr = spec["nr"]
         i.name = spec["name"]
         return i
